@@ -429,7 +429,8 @@ func reifyValue(
 	val, done := derefConfig(opts.opts, val)
 	defer done()
 
-	if t.Kind() == reflect.Interface && t.NumMethod() == 0 {
+	baseType := chaseTypePointers(t)
+	if baseType.Kind() == reflect.Interface && baseType.NumMethod() == 0 {
 		reified, err := val.reify(opts.opts)
 		if err != nil {
 			if e, ok := err.(Error); ok && e.Path() != "" {
@@ -441,10 +442,17 @@ func reifyValue(
 		if err := runValidators(reified, opts.validators); err != nil {
 			return reflect.Value{}, raiseValidation(val.Context(), val.meta(), "", err)
 		}
-		return reflect.ValueOf(reified), nil
+		if t == baseType {
+			return reflect.ValueOf(reified), nil
+		}
+		// t is a pointer to interface{}: store the value in a new interface cell
+		cell := reflect.New(baseType).Elem()
+		if reified != nil {
+			cell.Set(reflect.ValueOf(reified))
+		}
+		return pointerize(t, baseType, cell), nil
 	}
 
-	baseType := chaseTypePointers(t)
 	if tConfig.ConvertibleTo(baseType) {
 		cfg, err := val.toConfig(opts.opts)
 		if err != nil {
@@ -526,9 +534,21 @@ func reifyMergeValue(
 
 	old := chaseValueInterfaces(oldValue)
 	t := old.Type()
+	ptr := old
 	old = chaseValuePointers(old)
 	if (old.Kind() == reflect.Ptr || old.Kind() == reflect.Interface) && old.IsNil() {
 		return reifyValue(opts, t, val)
+	}
+	if old.Kind() == reflect.Interface {
+		// pointer to an interface holding a value: merge into that value
+		v, err := reifyMergeValue(opts, old, val)
+		if err != nil {
+			return reflect.Value{}, err
+		}
+		if v.IsValid() {
+			old.Set(v)
+		}
+		return ptr, nil
 	}
 
 	baseType := chaseTypePointers(old.Type())
